@@ -80,6 +80,39 @@ def setup_worker(ctx):
     ctx.state['info'] = info
     ctx.state['facade'] = xmlserver.Facade(fconn)
     ctx.state['pool'] = []      # recent valid responses (bytes)
+    ctx.state['recordings'] = load_recordings()
+
+
+def load_recordings():
+    """(operation, method name, response body) of the server answers recorded
+    in the repository's function tests (tests/functiontest/*.yaml): payloads
+    of other servers, with structures the facade does not produce."""
+    import glob
+    import os
+    try:
+        import yaml
+    except ImportError:
+        return []
+    from vf import REPO_DIR
+    out = []
+    for fn in sorted(glob.glob(os.path.join(REPO_DIR, 'tests', 'functiontest',
+                                            '*.yaml'))):
+        try:
+            with open(fn, encoding='utf-8') as f:
+                cases = yaml.safe_load(f) or []
+        except Exception:  # pylint: disable=broad-except
+            continue
+        for tc in cases:
+            try:
+                oper = tc['pywbem_request']['operation']
+                data = (tc.get('http_response') or {}).get('data')
+                if not data or oper['pywbem_method'] not in ops.ALL_OPS:
+                    continue
+                out.append((oper['pywbem_method'], oper.get('MethodName'),
+                            data.encode('utf-8')))
+            except (KeyError, TypeError, AttributeError):
+                continue
+    return out
 
 
 def finish_worker(ctx):
@@ -757,12 +790,22 @@ def run_case(ctx, i, rng):
     facade = st['facade']
     pool = st['pool']
     G = ops.RepoMaterial(rng, info)
+    rclass = rng.choice(['garbage', 'invalid', 'mutated', 'mutated',
+                         'mutated', 'mutated', 'http', 'fault', 'valid',
+                         'recorded'])
+    recording = None
+    if rclass == 'recorded':
+        if st.get('recordings'):
+            recording = rng.choice(st['recordings'])
+        else:
+            rclass = 'mutated'
     try:
-        op, args, kw = ops.gen_call(rng, G)
+        op, args, kw = ops.gen_call(rng, G,
+                                    recording[0] if recording else None)
     except (TypeError, ValueError):
         return
-    rclass = rng.choice(['garbage', 'invalid', 'mutated', 'mutated',
-                         'mutated', 'mutated', 'http', 'fault', 'valid'])
+    if recording and op == 'InvokeMethod' and recording[1]:
+        args = (recording[1],) + tuple(args[1:])
     if not pool and rclass == 'mutated':
         rclass = 'valid'
     target = rng.choice([0, 0, 0, 1, 2])     # which request gets the payload
@@ -850,6 +893,17 @@ def run_case(ctx, i, rng):
             if headers is not None and 'Content-type' not in headers and \
                     status != 200:
                 headers = dict(headers)
+        elif rclass == 'recorded':
+            # a server answer recorded in the repository's function tests,
+            # as it is or structurally mutated
+            body = recording[2]
+            if rng.random() < 0.6:
+                body, mk = mutate(rng, body, pool or [body])
+                script['mut'] = 'recorded+' + mk
+                ctx.count('structure-mutated')
+            else:
+                script['mut'] = 'recorded'
+            ctx.count('recorded-response-used')
         elif rclass == 'valid':
             body = valid_answer(request)
             if len(pool) < 60:
